@@ -318,14 +318,18 @@ struct TierCfg {
 fn tier_cfg(prop: &str, tier: &str) -> TierCfg {
     let quick = tier != "thorough";
     let base: u64 = match prop {
-        "C03" => 6_000,
-        "C02" => 10_000,
-        _ => 12_000,
+        "C03" => 120_000,
+        "C02" => 150_000,
+        "C22" | "C23" => 300_000,
+        "C15" => 120_000,
+        "C25" => 800,
+        "C20" => 4_000,
+        _ => 250_000,
     };
     if quick {
-        TierCfg { runs: base, wall_cap_s: 150.0 }
+        TierCfg { runs: base, wall_cap_s: 240.0 }
     } else {
-        TierCfg { runs: base * 60, wall_cap_s: 900.0 }
+        TierCfg { runs: base * 40, wall_cap_s: 1500.0 }
     }
 }
 
